@@ -334,6 +334,20 @@ def run(ctx, chk, tier="quick"):
     # every grid step gets an ET value: the refusal of a grid instant without ET runs on every path (shared with C11.O4)
     from .c11 import _missing_et
     _missing_et(ctx, chk, ctx.func("load.load_data"), rule="C10.O2")
+    # the grid instants and the rainfall / ET steps are the converted timestamps of the files: the per-row conversion obligation
+    # of C11.O1 is a necessary condition here too (shared: only the obligation that says every row is localized on its own)
+    try:
+        from ..report import Check as _Check, VIOLATION as _V
+        from . import c11 as _c11
+        _sub = _Check("C11", "quick")
+        _sub.ctx = getattr(chk, "ctx", None)
+        _c11.run(ctx, _sub, "quick")
+        for _o in _sub.obs:
+            if (_o.key or "").endswith("|localize-per-row") and _o.verdict == _V:
+                chk.ob("C10.O1", False, (_o.file, _o.function, _o.line), _o.found, _o.required, key=_o.key, local=True,
+                       why="rows converted with the offset of another instant land on other grid instants than the water level's: grid timestamps and the rainfall / ET value of a step no longer reproduce the source files")
+    except Exception:       # the shared obligation is C11's; if its analysis cannot run here, C10 decides nothing about it
+        pass
     from .. import sqltypes
     sqltypes.check(ctx, chk, "C10.O2", modules=("load",))
     load = ctx.func("load.load_data")
